@@ -19,7 +19,7 @@ func readPointer(s string) (Path, error) {
 		var element JsonNode
 		var err error
 		number, err := strconv.Atoi(t)
-		if err == nil {
+		if err == nil && isPointerIndex(t) {
 			element, err = NewJsonNode(number)
 		} else {
 			element, err = NewJsonNode(t)
@@ -33,6 +33,21 @@ func readPointer(s string) (Path, error) {
 		path[i] = element
 	}
 	return NewPath(path)
+}
+
+// isPointerIndex is true for the array index tokens of RFC 6901:
+// "0", or digits without a leading zero. Other spellings of a number
+// ("01", "+1", "-1") are member names.
+func isPointerIndex(t string) bool {
+	if t == "" || (len(t) > 1 && t[0] == '0') {
+		return false
+	}
+	for i := 0; i < len(t); i++ {
+		if t[i] < '0' || t[i] > '9' {
+			return false
+		}
+	}
+	return true
 }
 
 func writePointer(path []JsonNode) (string, error) {
